@@ -1281,7 +1281,9 @@ def parse_txt(txt, xopts=None, **kwargs):
     uniquifier = xopts.uniquifier
     if uniquifier is None:
         log.debug(f"creating uniquifier for {txt}")
-        uniquifier = uniq.Uniquifier()
+        # the expander protects the bodies of nested extension tags (<ref>, <poem>, gallery lines)
+        # with its own uniquifier: use that one for the page too, or markers of the two collide
+        uniquifier = getattr(xopts.expander, "uniquifier", None) or uniq.Uniquifier()
         txt = uniquifier.replace_tags(txt)
         xopts.uniquifier = uniquifier
 
